@@ -114,6 +114,8 @@ def harness_for(seed):
                 t[k2]
             except KeyError:
                 pass
+        except bpfkernel.KernelFault:
+            pass
         finally:
             undo()
             undo_cpus()
